@@ -475,6 +475,115 @@ def k4_add_dependency(rep: Report) -> None:
         rep.candidate(key, f"trigger {m.get('trigger')!r}", m, replay)
 
 
+# --- K5: subtype caches do not survive a change of a class's bases
+def k5_mro_cache(rep: Report) -> None:
+    """mro.calculate_mro (run from source) with the real TypeState: before the edit a subtype question
+    `C <: S` was answered and cached (positively or negatively, solver-chosen) for some class S; the edit
+    changes C's bases (solver-chosen old and new base lists over classes B1, B2, object); after
+    calculate_mro no cached answer about C against any class of its new MRO may remain, in either cache."""
+    from mypy.nodes import Block, ClassDef, SymbolTable, TypeInfo
+    from mypy.types import Instance
+    from mypy.typestate import type_state
+
+    K = Kernel("mypy.mro", ["calculate_mro", "linearize_hierarchy", "merge"], closure=False)
+    K.ns["linearize_hierarchy"] = K["linearize_hierarchy"]
+    K.ns["merge"] = K["merge"]
+    rep.kernels_from(K)
+    import mypy.typestate as TSM
+
+    rep.kernel("mypy.typestate", symx.source_hash(TSM.__file__))
+    ctx = Ctx()
+    found: dict = {}
+    n = {"p": 0, "stale_possible": 0}
+    BASES = [(), ("B1",), ("B2",), ("B1", "B2"), ("B2", "B1")]
+
+    def mk(name: str, bases: list, obj: Any) -> Any:
+        info = TypeInfo(SymbolTable(), ClassDef(name, Block([])), "m")
+        info._fullname = "m." + name
+        info.bases = bases or [Instance(obj, [])]
+        return info
+
+    def body(c: Ctx) -> None:
+        obj = TypeInfo(SymbolTable(), ClassDef("object", Block([])), "builtins")
+        obj._fullname = "builtins.object"
+        obj.mro = [obj]
+        obj.bases = []
+        infos = {"B1": mk("B1", [], obj), "B2": mk("B2", [], obj)}
+        for b in infos.values():
+            K["calculate_mro"](b, lambda: Instance(obj, []))
+        old = BASES[c.choose("old_bases", len(BASES))]
+        new = BASES[c.choose("new_bases", len(BASES))]
+        C = mk("C", [Instance(infos[b], []) for b in old], obj)
+        K["calculate_mro"](C, lambda: Instance(obj, []))
+        infos["C"] = C
+        type_state.reset_all_subtype_caches()
+        # answers cached before the edit
+        sup = ["B1", "B2"][c.choose("cached_question_about", 2)]
+        negative = bool(c.bool("cached_answer_negative"))
+        kind = (False,)  # a SubtypeKind: (is_proper_subtype, ...) -- an opaque hashable key
+        left, right = Instance(C, []), Instance(infos[sup], [])
+        if negative:
+            type_state.record_negative_subtype_cache_entry(kind, left, right)
+        else:
+            type_state.record_subtype_cache_entry(kind, left, right)
+        # the edit: C gets new bases, its MRO is recomputed
+        C.bases = [Instance(infos[b], []) for b in new] or [Instance(obj, [])]
+        C.mro = []
+        K["calculate_mro"](C, lambda: Instance(obj, []))
+        n["p"] += 1
+        in_new_mro = infos[sup] in C.mro
+        n["stale_possible"] += 1 if in_new_mro else 0
+        stale = type_state.is_cached_negative_subtype_check(kind, left, right) or type_state.is_cached_subtype_check(kind, left, right)
+        type_state.reset_all_subtype_caches()
+        c.stats["assert_queries"] += 1
+        if in_new_mro and stale:
+            c.stats["refuted"] += 1
+            found.setdefault(f"a cached {'negative' if negative else 'positive'} subtype answer about a class survives the recomputation of its MRO", (old, new, sup, negative))
+        else:
+            c.stats["discharged"] += 1
+
+    ctx.explore(body)
+    rep.add_ctx("K5 subtype caches after calculate_mro", ctx, edits=n["p"], edits_where_the_cached_supertype_is_in_the_new_mro=n["stale_possible"])
+    rep.twin("K5: edits that put the cached supertype into the new MRO reached", n["stale_possible"] > 0)
+    for key, (old, new, sup, negative) in found.items():
+        rep.sample({"kernel": "calculate_mro", "class": key, "old_bases": old, "new_bases": new, "cached_supertype": sup})
+
+        def replay(d: str, old: Any = old, new: Any = new, sup: str = sup, negative: bool = negative) -> tuple[bool, str]:
+            # the daemon, as the property states it: check, edit the bases of C, check again, compare with a fresh run
+            defs = "class B1: ...\nclass B2: ...\n"
+            with open(os.path.join(d, "lib.py"), "w") as f:
+                f.write(defs)
+
+            def cdef(bases: Any) -> str:
+                return "import lib\nclass C(" + ", ".join("lib." + b for b in bases) + "): ...\n" if bases else "import lib\nclass C: ...\n"
+
+            with open(os.path.join(d, "c.py"), "w") as f:
+                f.write(cdef(old))
+            with open(os.path.join(d, "main.py"), "w") as f:
+                f.write(f"import lib\nfrom c import C\ndef f(x: lib.{sup}) -> None: ...\nf(C())\n")
+            env = dict(os.environ)
+            env.pop("PYTHONPATH", None)
+            drv = (
+                "import os, sys\nfrom mypy.dmypy_server import Server\nfrom mypy.options import Options\nfrom mypy.modulefinder import BuildSource\nfrom mypy import api\n"
+                "o = Options(); o.incremental = True; o.fine_grained_incremental = True; o.use_fine_grained_cache = False; o.cache_dir = os.devnull; o.show_traceback = True; o.local_partial_types = True\n"
+                "srv = Server(o, 'st.json')\n"
+                "srcs = [BuildSource('main.py', 'main'), BuildSource('c.py', 'c'), BuildSource('lib.py', 'lib')]\n"
+                "r1 = srv.check(srcs, False, False, 80)\n"
+                f"open('c.py', 'w').write({cdef(new)!r}); os.utime('c.py', (2_000_000_000, 2_000_000_000))\n"
+                "r2 = srv.check(srcs, False, False, 80)\n"
+                "out, err, st = api.run(['--no-incremental', '--no-error-summary', 'main.py', 'c.py', 'lib.py'])\n"
+                "print('DAEMON', r2.get('status'), repr(r2.get('out', '').strip()))\nprint('FRESH', st, repr(out.strip()))\n"
+                "d = [l for l in r2.get('out', '').splitlines() if 'error' in l]; fr = [l for l in out.splitlines() if 'error' in l]\n"
+                "sys.exit(1 if d != fr else 0)\n"
+            )
+            with open(os.path.join(d, "driver.py"), "w") as f:
+                f.write(drv)
+            p = subprocess.run([sys.executable, "driver.py"], cwd=d, env=env, capture_output=True, text=True, timeout=600)
+            return p.returncode == 1, (p.stdout + p.stderr)[-700:]
+
+        rep.candidate(key, f"C({', '.join(old)}) -> C({', '.join(new)}), cached question C <: {sup}", {"old": list(old), "new": list(new)}, replay)
+
+
 def main(args: Any) -> int:
     rep = Report(PID, args.tier, "symbolic execution (symx/z3) of the real change-detection and snapshot-diff functions; stat values, clocks, hashes, snapshot contents symbolic; replay through an in-process dmypy Server vs a fresh mypy run")
     only = set(args.only.split(",")) if args.only else None
@@ -499,6 +608,9 @@ def main(args: Any) -> int:
         k3_snapshot(rep)
     if only is None or "K4" in only:
         k4_add_dependency(rep)
+    if only is None or "K5" in only:
+        k5_mro_cache(rep)
+        rep.bounds.append("K5: class C with old and new base lists over {B1, B2} (5 shapes each), one cached subtype answer (positive or negative) about C against B1 or B2")
     return rep.finish()
 
 
